@@ -6,6 +6,30 @@ from units.mk import Unit, COMMON
 def _conc(ctx):
     from units import conc
     conc.conc_sessions(ctx, int((20 if ctx.tier == "quick" else 300) * ctx.budget))
+    # "likewise TcpTransportAsync and TcpTransport deliver the same bytes": the same stream / write / poll procedures on real loopback sockets
+    from units import c18
+    rep = ctx.report
+    before = len(rep.prop_failures)
+    for plan in c18.plans_for(ctx, max(2, int(6 * ctx.budget)), 65536):
+        f = c18.check_stream(ctx, plan)
+        if f:
+            rep.prop_failures.append(f)
+    for kind in ("sync", "async"):
+        for f in (c18.check_write(ctx, kind, 1 << 20), c18.check_poll(ctx, kind)):
+            if f:
+                rep.prop_failures.append(f)
+    for f in rep.prop_failures[before:]:
+        f["no_shrink"] = True
+        f["replay_with"] = "c18"
+
+
+def _replay_c18(ctx, fl):
+    from units import c18
+    return c18.replay(ctx, dict(failure=fl))
+
+
+from units import mk as _mk
+_mk.REPLAYERS["c18"] = _replay_c18
 
 
 Unit([("shell", scen.gen_shell, 2), ("sync", scen.gen_sync_read, 2), ("push", scen.gen_push, 1), ("handshake", scen.gen_handshake, 2), ("mixed", scen.gen_mixed, 2), ("reconnect", scen.gen_reconnect_push, 1), ("slow", scen.gen_slow, 1), ("noclose", scen.gen_noclose, 1),
